@@ -5,7 +5,7 @@ from ..frontend import AnalysisError, src, walk_no_nested
 from ..symx import run_paths
 from ..lin import Form, Lin
 from ..cfg import CFG
-from ..pathcond import implied
+from ..pathcond import implied, rimplied, cmp_outcome
 from .. import pairs
 
 MANIFEST = {
@@ -161,9 +161,9 @@ def run(ctx):
                 d3.fail(cons, 'index-set', 'phase rows written at %s, which is not the equilibrium index set (may touch locked chemicals)' % idx, f, e.stmt)
     # self._index provenance
     su = vle.methods['_setup']
-    prov = [n for n in walk_no_nested(su.node) if isinstance(n, ast.Assign) and any(src(t) == 'self._index' for t in n.targets)]
-    if prov and all(src(n.value) == 'index' for n in prov) and any(
-            isinstance(n, ast.Assign) and src(n.targets[0]) == 'index' and 'get_vle_indices' in src(n.value) for n in walk_no_nested(su.node)):
+    sps, _ = run_paths(su.node, max_paths=4000, follow_except=False)
+    prov = [e for q in sps for e in q.events if e.kind == 'store' and e.target == 'self._index']
+    if prov and all('get_vle_indices(' in e.value.pretty() for e in prov):
         d3.ok('VLE._setup', 'self._index comes from chemicals.get_vle_indices(nonzero)', su)
     else:
         d3.fail('VLE._setup', 'index-provenance', 'self._index is not built by get_vle_indices', su, su.node)
@@ -188,17 +188,27 @@ def clip_rules(ctx, d2, vle):
         raise AnalysisError('VLE._solve_v: fixed-point branch not found')
     body = branch.body
     solve = [s for s in body if isinstance(s, ast.Assign) and '_solve_v_fixed_point' in src(s.value)]
-    hi = [s for s in body if isinstance(s, ast.Assign) and isinstance(s.targets[0], ast.Subscript) and src(s.targets[0].value) == 'v'
+    V = None
+    if solve:
+        names = [t.id for t in solve[0].targets if isinstance(t, ast.Name)]
+        V = names[-1] if names else None
+    hi = [s for s in body if V and isinstance(s, ast.Assign) and isinstance(s.targets[0], ast.Subscript) and src(s.targets[0].value) == V
           and isinstance(s.value, ast.Subscript)]
-    lo = [s for s in body if isinstance(s, ast.Assign) and isinstance(s.targets[0], ast.Subscript) and src(s.targets[0].value) == 'v'
-          and src(s.targets[0].slice).replace(' ', '') in ('v<0.0', 'v<0') and src(s.value) in ('0.0', '0')]
+    lo = []
+    for s_ in body:
+        if V and isinstance(s_, ast.Assign) and isinstance(s_.targets[0], ast.Subscript) and src(s_.targets[0].value) == V \
+                and isinstance(s_.value, ast.Constant) and s_.value.value == 0:
+            sl = s_.targets[0].slice
+            if isinstance(sl, ast.Compare) and src(sl.left) == V and isinstance(sl.ops[0], ast.Lt) and isinstance(sl.comparators[0], ast.Constant) \
+                    and sl.comparators[0].value == 0:
+                lo.append(s_)
     okk = bool(solve)
     if okk and hi:
         mask = src(hi[0].targets[0].slice)
         mdef = [s for s in body if isinstance(s, ast.Assign) and src(s.targets[0]) == mask]
         m = mdef[0].value if mdef else hi[0].targets[0].slice
         tot = src(hi[0].value.value)
-        good_hi = isinstance(m, ast.Compare) and src(m.left) == 'v' and isinstance(m.ops[0], (ast.Gt, ast.GtE)) and src(m.comparators[0]) == tot \
+        good_hi = isinstance(m, ast.Compare) and src(m.left) == V and isinstance(m.ops[0], (ast.Gt, ast.GtE)) and src(m.comparators[0]) == tot \
             and src(hi[0].value.slice) == mask and body.index(hi[0]) > body.index(solve[0])
         # tot is the total of this path
         tdefs = [src(s.value) for s in ast.walk(branch) if isinstance(s, ast.Assign) and src(s.targets[0]) == tot]
@@ -230,16 +240,26 @@ def clip_rules(ctx, d2, vle):
             if not tr:
                 continue
             n += 1
-            neg = implied(p.conds, lambda e: src(e) in ('f < 0.0', 'f < 0'))
-            pos = implied(p.conds, lambda e: src(e) in ('f > 0.0', 'f > 0'))
-            big = implied(p.conds, lambda e: src(e) in ('f > 1.0', 'f > 1'))
-            # amount = f * phase[index] : f is 1 when big, else the raw fraction
+            # the fraction variable: the bare local that multiplies the phase amount in the definition of the transferred quantity
+            fr = None
+            amt_name = src(tr[0].stmt.value) if isinstance(tr[0].stmt.value, ast.Name) else None
+            for e in p.events:
+                if e.kind == 'assign' and e.target == amt_name and isinstance(e.stmt.value, ast.BinOp) and isinstance(e.stmt.value.op, ast.Mult):
+                    for side in (e.stmt.value.left, e.stmt.value.right):
+                        if isinstance(side, ast.Name):
+                            fr = side.id
+            if fr is None:
+                bad = 'the transferred amount is not (fraction x phase amount)'
+                continue
+            neg = cmp_outcome(p, fr, (ast.Lt,), 0)
+            pos = cmp_outcome(p, fr, (ast.Gt,), 0)
+            big = cmp_outcome(p, fr, (ast.Gt,), 1)
             amt = tr[0].value
             if not (neg is False and pos is True and big is not None):
                 bad = 'a transfer happens on a path where the fraction was not tested against 0 and 1'
             elif big is True:
-                # f was reset to 1: amount must not contain the raw quotient any more
-                if any('S_current' in a or 'H_current' in a for a in amt.atoms()):
+                # the fraction was reset to 1: the amount moved must be exactly the phase amount (coefficient 1, no quotient left)
+                if not all(v == 1 and len(k) == 1 for k, v in amt.t.items()):
                     bad = 'fraction above 1 is not reset to 1 before the transfer'
         if bad or not n:
             d2.fail('VLE.' + name, 'fraction-clamp', bad or 'no transfer path found', g, g.node)
@@ -253,9 +273,17 @@ def clip_rules(ctx, d2, vle):
         if p.raised:
             continue
         n += 1
-        hi = implied(p.conds, lambda e: src(e) == 'split_frac > 1')
-        lo = implied(p.conds, lambda e: src(e) == 'split_frac < 0')
-        sf = p.lin.env.get('split_frac')
+        # the fraction variable: the local compared with the constants 1 and 0 on this path
+        cand = [t.left.id for t, taken in p.conds if not isinstance(t, str) and isinstance(t, ast.Compare) and isinstance(t.left, ast.Name)
+                and isinstance(t.comparators[0], ast.Constant) and t.comparators[0].value in (0, 1) and len(t.ops) == 1]
+        fr = cand[0] if cand else None
+        hi = cmp_outcome(p, fr, (ast.Gt,), 1) if fr else None
+        lo = cmp_outcome(p, fr, (ast.Lt,), 0) if fr else None
+        sf = p.lin.env.get(fr) if fr else None
+        used = fr is not None and any(e.kind == 'store' and vle_side(e.target) and any(isinstance(x, ast.Name) and x.id == fr for x in ast.walk(e.stmt.value))
+                                      for e in p.events)
+        if not used:
+            bad = 'the clamped fraction is not the one used in the phase stores'
         if hi is True and sf != Form.const(1):
             bad = 'fraction above 1 not reset'
         if hi is False and lo is True and sf != Form.const(0):
@@ -305,8 +333,10 @@ def sle_rules(ctx, d1):
     ps, _ = run_paths(f.node)
     seen = {}
     for p in ps:
-        neg = implied(p.conds, lambda e: src(e) in ('x < 0.0', 'x < 0'))
-        big = implied(p.conds, lambda e: src(e) == 'x >= x_max')
+        xp = f.params[1]
+        neg = cmp_outcome(p, xp, (ast.Lt,), 0)
+        big = implied(p.conds, lambda e: isinstance(e, ast.Compare) and len(e.ops) == 1 and isinstance(e.ops[0], ast.GtE)
+                      and src(e.left) == xp and isinstance(e.comparators[0], ast.Name))
         liq = [e for e in p.events if e.kind == 'store' and e.target.startswith('self._liquid_mol[')]
         if not liq:
             continue
@@ -322,10 +352,12 @@ def sle_rules(ctx, d1):
     else:
         d1.fail('SLE._update_solubility', 'clamp', 'solubility is not clamped into [0, x_max] (%s)' % seen, f, f.node)
     # x_max definition: all solute dissolved <=> x = mol_solute/(F_liquid + mol_solute)
-    p = ps[0]
-    xm = p.lin.env.get('x_max')
-    Fl = p.lin.env.get('F_mol_liquid')
-    if xm is not None and Fl is not None and 'self._mol_solute' in xm.atoms():
+    xm = None
+    for p in ps:
+        for t, taken in p.conds:
+            if not isinstance(t, str) and isinstance(t, ast.Compare) and isinstance(t.ops[0], ast.GtE) and isinstance(t.comparators[0], ast.Name):
+                xm = p.lin.env.get(t.comparators[0].id)
+    if xm is not None and 'self._mol_solute' in xm.atoms() and any('self._liquid_mol' in a for a in xm.atoms()):
         d1.ok('SLE._update_solubility', 'x_max = mol_solute/(F_liquid_without_solute + mol_solute)', f)
     else:
         d1.fail('SLE._update_solubility', 'x_max', 'x_max is not derived from the solute total', f, f.node)
